@@ -98,6 +98,8 @@ def fold(pid, mod, spec, a, shard_results, dead, t0, nshards):
             reasons[k] = reasons.get(k, 0) + v
         samples.extend(r["samples"])
         viol.extend(r["violations"])
+    if hasattr(mod, "derive"):
+        counters.update(mod.derive(counters))
     known = load_known()
     known_keys = {(e["property"], e["key"]): e for e in known.get("known", [])}
     kf_seen, new = {}, []
